@@ -16,7 +16,8 @@ fields(f"{M}:Element", name="str", attrs="Attrs", _parent="Element | None", _chi
 fields(f"{M}:TerminalElement", data="str")
 fields(f"{M}:Tree", name="str", outmost="Element", stack="list[Element]")
 fields(f"{M}:HtmlToAst", struct="Tree")
-fields("builtins:Attrs", _opaque="int")
+# Attribute (a dict subclass) stays opaque; `_truthy` / `_str` are ghost fields standing for bool(attrs) (non-empty) and str(attrs)
+fields("builtins:Attrs", _opaque="int", _truthy="bool", _str="str")
 fields("builtins:TerminalClass", _opaque="int")
 
 
@@ -267,6 +268,13 @@ for cls, pre, post in (("Data", "", ""), ("Declaration", "<!", ">"), ("Comment",
         properties=["C16"],
     )
 
+# the void tag: `<name>`, with ` ` + str(attrs) after the name exactly when there are attributes
+# (Attribute.__str__ itself - a generator over a dict subclass - is not under contract: str(attrs) is its ghost view)
+contract(
+    f"{M}:VoidTag.render",
+    ensures=["result == '<' + self.name + (' ' if self.attrs else '') + str(self.attrs) + '>'"],
+    pure=True, returns="str", properties=["C16"],
+)
 
 # ---- reset_children: replace the child list, claiming the parentless items (used by strip) -------------------------------
 contract(
